@@ -101,7 +101,12 @@ func (f *Formatter) formatConditionLines(expr ast.Expression) ([]string, bool, b
 				opLines[len(opLines)-1] = opLines[len(opLines)-1] + " " + v
 			}
 			if i < len(ops) {
-				opLines[len(opLines)-1] = opLines[len(opLines)-1] + " " + ops[i]
+				if endsInLineComment(opLines[len(opLines)-1]) {
+					// The rest of the line is commented out, the operator goes to its own line
+					opLines = append(opLines, ops[i])
+				} else {
+					opLines[len(opLines)-1] = opLines[len(opLines)-1] + " " + ops[i]
+				}
 			}
 			lines = append(lines, opLines...)
 			preserve = preserve || opPreserve
@@ -144,4 +149,40 @@ func (f *Formatter) formatConditionExpression(expr ast.Expression, nest, offset 
 	}
 
 	return strings.Join(lines, "\n"), true, preserve
+}
+
+// endsInLineComment reports whether the rendered line ends inside a line comment ("#" or "//"),
+// string literals and block comments are skipped.
+func endsInLineComment(line string) bool {
+	for i := 0; i < len(line); i++ {
+		switch {
+		case strings.HasPrefix(line[i:], "/*"):
+			end := strings.Index(line[i+2:], "*/")
+			if end < 0 {
+				return false
+			}
+			i += end + 3
+		case strings.HasPrefix(line[i:], `{"`):
+			end := strings.Index(line[i+2:], `"}`)
+			if end < 0 {
+				return false
+			}
+			i += end + 3
+		case line[i] == '"':
+			end := strings.IndexByte(line[i+1:], '"')
+			if end < 0 {
+				return false
+			}
+			i += end + 1
+		case line[i] == '\n':
+			// only the last line matters
+		case line[i] == '#', strings.HasPrefix(line[i:], "//"):
+			if nl := strings.IndexByte(line[i:], '\n'); nl >= 0 {
+				i += nl
+				continue
+			}
+			return true
+		}
+	}
+	return false
 }
